@@ -108,7 +108,9 @@ def check(ctx):
         'R1: reciprocal_grid is evaluated symbolically for every (shift, '
         'parity, halfcomplex) case: rmax - rmin = (rshape - 1) * 2 pi/(s N),'
         ' rshape = N or N//2 + 1, and realspace_grid restores stride and '
-        'shape.  R2: the fmin/fmax table of dft_postprocess_data equals '
+        'shape; on 2-d grids with axes subsets, mixed parities and per-axis '
+        'shifts every axis agrees with the one-axis rule and untouched axes '
+        'are unchanged.  R2: the fmin/fmax table of dft_postprocess_data equals '
         'rmin*s/2pi, rmax*s/2pi of reciprocal_grid in all eight cases and '
         'the phase of dft_preprocess_data equals exp(imag*rmin*s*k).  R3: '
         'for each transform class x sign x halfcomplex the NumPy and pyFFTW '
